@@ -1051,7 +1051,11 @@ class MySQLParser(SQLParser):
 
     @_('INTEGER')
     def integer(self, p):
-        return int(p[0])
+        try:
+            return int(p[0])
+        except ValueError:
+            # more digits than int() converts (the interpreter's limit for int <-> str conversion)
+            raise ParsingException(f'Number is out of range: {p[0][:20]}...')
 
     @_('QUOTE_STRING')
     def quote_string(self, p):
